@@ -144,14 +144,14 @@ func TestPageInfoDigest(t *testing.T) {
 type vkind int
 
 const (
-	vSeg     vkind = iota // 16 bytes: selector u16, attrib u16, limit u32, base u64
-	vU64                  // proto uint64, 8 bytes
-	vU32                  // proto uint32, 4 bytes
-	vU8                   // proto uint32 documented uint8_t, 1 byte
-	vResB                 // reserved bytes, must be zero, size = documented size
-	vRes64                // reserved proto uint64, must be zero
-	vTailB                // bytes field after xcr0, which PutVmsa documents as "all zero at launch"
-	vTail64               // uint64 field after xcr0
+	vSeg    vkind = iota // 16 bytes: selector u16, attrib u16, limit u32, base u64
+	vU64                 // proto uint64, 8 bytes
+	vU32                 // proto uint32, 4 bytes
+	vU8                  // proto uint32 documented uint8_t, 1 byte
+	vResB                // reserved bytes, must be zero, size = documented size
+	vRes64               // reserved proto uint64, must be zero
+	vTailB               // bytes field after xcr0, which PutVmsa documents as "all zero at launch"
+	vTail64              // uint64 field after xcr0
 )
 
 type vfld struct {
@@ -204,7 +204,9 @@ var vmsaTable = []vfld{
 var vmsaDesc = (&spb.VmcbSaveArea{}).ProtoReflect().Descriptor()
 var segDesc = (&spb.VmcbSeg{}).ProtoReflect().Descriptor()
 
-func vfd(name string) protoreflect.FieldDescriptor { return vmsaDesc.Fields().ByName(protoreflect.Name(name)) }
+func vfd(name string) protoreflect.FieldDescriptor {
+	return vmsaDesc.Fields().ByName(protoreflect.Name(name))
+}
 
 // vmsaTableSelfCheck: the table names every proto field once, ranges are disjoint and increasing
 // and cover [0, 0x408) completely. A failure here is a harness/infra problem, not a violation.
@@ -229,7 +231,10 @@ func vmsaTableSelfCheck(t *testing.T) {
 	}
 }
 
-type segVal struct{ selector, attrib, limit uint32; base uint64 }
+type segVal struct {
+	selector, attrib, limit uint32
+	base                    uint64
+}
 
 func setSeg(m protoreflect.Message, name string, s segVal) {
 	sm := m.Mutable(vfd(name)).Message()
